@@ -115,11 +115,13 @@ theorem checkZeroFuncArgs_deriv (a : Args) (m : Mode) (i : Nat) (c : St)
 
 theorem tick_mono (c : St) : ErrMono c { c with tc := c.tc + 1 } := ⟨rfl, rfl, rfl, rfl, rfl, rfl, rfl, id⟩
 
-theorem checkDerivArg_ok (o : Oracle) (c : St) : ChkOk c (checkDerivArg o c) := by
+theorem checkDerivArg_ok (arg lo hi : Int) (c : St) : ChkOk c (checkDerivArg arg lo hi c) := by
   unfold checkDerivArg
   split
-  · exact ⟨tick_mono c, fun h => by cases h⟩
-  · exact ⟨(tick_mono c).trans (derivError_mono _), fun _ => derivError_some _⟩
+  · exact ⟨derivError_mono c, fun _ => derivError_some c⟩
+  · split
+    · exact ⟨derivError_mono c, fun _ => derivError_some c⟩
+    · exact ⟨ErrMono.refl c, fun h => by cases h⟩
 
 theorem thenChk_ok {c : St} {r : Bool × St} {k : St → Bool × St} (h1 : ChkOk c r) (h2 : ChkOk r.2 (k r.2)) :
     ChkOk c (thenChk r k) := by
@@ -137,30 +139,31 @@ theorem thenChk_true {r : Bool × St} {k : St → Bool × St} (h : (thenChk r k)
 
 theorem chkOk_pure (c : St) : ChkOk c (true, c) := ⟨ErrMono.refl c, fun h => by cases h⟩
 
-theorem besselTail_ok (o : Oracle) (m : Mode) (s1 : St) :
+theorem besselTail_ok (a : Args) (m : Mode) (flag : Bool) (s1 : St) :
     ChkOk s1 (if m.derivs then
       if m.hes then
-        thenChk (checkDerivArg o s1) fun s2 => thenChk (checkDerivArg o s2) fun s3 => (true, s3)
-      else thenChk (checkDerivArg o s1) fun s3 => (true, s3)
+        thenChk (checkDerivArg (a.raInt 0) (intMin + 2) (intMax - 2) s1) fun s2 =>
+          thenChk (checkDerivArg (a.raInt 0) (derivMin flag) (intMax - 1) s2) fun s3 => (true, s3)
+      else thenChk (checkDerivArg (a.raInt 0) (derivMin flag) (intMax - 1) s1) fun s3 => (true, s3)
     else (true, s1)) := by
   split
   · split
-    · exact thenChk_ok (checkDerivArg_ok o s1) (thenChk_ok (checkDerivArg_ok o _) (chkOk_pure _))
-    · exact thenChk_ok (checkDerivArg_ok o s1) (chkOk_pure _)
+    · exact thenChk_ok (checkDerivArg_ok _ _ _ s1) (thenChk_ok (checkDerivArg_ok _ _ _ _) (chkOk_pure _))
+    · exact thenChk_ok (checkDerivArg_ok _ _ _ s1) (chkOk_pure _)
   · exact chkOk_pure _
 
-theorem checkBesselArgs_ok (o : Oracle) (a : Args) (m : Mode) (c : St) : ChkOk c (checkBesselArgs o a m c) := by
+theorem checkBesselArgs_ok (a : Args) (m : Mode) (flag : Bool) (c : St) : ChkOk c (checkBesselArgs a m flag c) := by
   unfold checkBesselArgs
-  exact thenChk_ok (checkIntArg_ok a m 0 c) (besselTail_ok o m _)
+  exact thenChk_ok (checkIntArg_ok a m 0 c) (besselTail_ok a m flag _)
 
-theorem checkBesselArgs_deriv (o : Oracle) (a : Args) (m : Mode) (c : St) (h : (checkBesselArgs o a m c).1 = true)
-    (hd : m.derivs = true) (hc : a.const 0 = false) : (checkBesselArgs o a m c).2.err.isSome = true := by
+theorem checkBesselArgs_deriv (a : Args) (m : Mode) (flag : Bool) (c : St) (h : (checkBesselArgs a m flag c).1 = true)
+    (hd : m.derivs = true) (hc : a.const 0 = false) : (checkBesselArgs a m flag c).2.err.isSome = true := by
   -- the error left by check_int_arg's constness test survives the remaining (error-monotone) steps
   unfold checkBesselArgs at h ⊢
   obtain ⟨hit, heq⟩ := thenChk_true h
   rw [heq]
   have he := checkIntArg_deriv a m 0 c hit hd hc
-  exact (besselTail_ok o m _).mono.err he
+  exact (besselTail_ok a m flag _).mono.err he
 
 theorem checkCouplingFrom_ok (a : Args) (m : Mode) (fuel : Nat) : ∀ i c, ChkOk c (checkCouplingFrom a m fuel i c) := by
   induction fuel with
